@@ -26,11 +26,36 @@ impl Gitignore {
     #[verifier::external_body]
     pub fn num_whitelists(&self) -> u64 { unimplemented!() }
 }
+// the pattern lines a builder holds / a compiled matcher was built from, in order (later lines take precedence: the ignore crate)
+#[derive(Clone, Copy, PartialEq, Eq, Structural)]
+pub struct LineS { pub id: int }
+pub uninterp spec fn line_blank(l: LineS) -> bool;      // str::is_empty
+pub uninterp spec fn line_comment(l: LineS) -> bool;    // starts_with('#')
+impl LineS {
+    #[verifier::external_body]
+    pub fn is_empty(&self) -> (r: bool) ensures r == line_blank(*self) { unimplemented!() }
+    #[verifier::external_body]
+    pub fn starts_with(&self, c: char) -> (r: bool) requires c == '#' ensures r == line_comment(*self) { unimplemented!() }
+}
+pub uninterp spec fn builder_lines(b: GitignoreBuilder) -> Seq<LineS>;
+pub uninterp spec fn matcher_lines(g: Gitignore) -> Seq<LineS>;
+// the text of an ignore file, as its lines
+pub struct ContentS { pub lines: Ghost<Seq<LineS>> }
+impl ContentS {
+    #[verifier::external_body]
+    pub fn lines(&self) -> (r: Vec<LineS>) ensures r@ == self.lines@ { unimplemented!() }
+}
 impl GitignoreBuilder {
     #[verifier::external_body]
-    pub fn new(root: &PathS) -> (r: GitignoreBuilder) ensures r.root == *root { unimplemented!() }
+    pub fn new(root: &PathS) -> (r: GitignoreBuilder) ensures r.root == *root, builder_lines(r) =~= Seq::<LineS>::empty() { unimplemented!() }
     #[verifier::external_body]
-    pub fn build(&self) -> (r: Result<Gitignore, GlobErr>) ensures r is Ok ==> r->Ok_0.root == Some(self.root) { unimplemented!() }
+    pub fn build(&self) -> (r: Result<Gitignore, GlobErr>) ensures r is Ok ==> r->Ok_0.root == Some(self.root) && matcher_lines(r->Ok_0) == builder_lines(*self) { unimplemented!() }
+    // add_line(from, line): appends one pattern line (the `from` argument only labels diagnostics); a malformed glob is an error and adds nothing
+    #[verifier::external_body]
+    pub fn add_line(&mut self, from: Option<PathS>, line: LineS) -> (r: Result<(), GlobErr>)
+        ensures final(self).root == old(self).root, r is Ok ==> builder_lines(*final(self)) == builder_lines(*old(self)).push(line),
+    { unimplemented!() }
+    pub fn clone(&self) -> (r: GitignoreBuilder) ensures r == *self { *self }
     pub fn to_owned(&self) -> (r: GitignoreBuilder) ensures r == *self { *self }
 }
 // radix_trie::Trie<String, Ignore>, seen as a map from the directory whose display string is the key
@@ -55,3 +80,16 @@ pub fn simplify_path(p: &PathS) -> (r: PathS) ensures r == *p { *p }
 // the directory an ignore file applies in: its applies_in, or the file-system root for a global file (get_applies_in_path is an item of this unit)
 pub open spec fn applies_in_of(origin: PathS, f: &IgnoreFile) -> PathS { match f.applies_in { Some(p) => p, None => fs_root(origin) } }
 pub fn vx_id<T>(x: T) -> (r: T) ensures r == x { x }
+// `for x in v` desugared (R16): the elements of the vector in order
+pub struct VxIter<T> { pub v: Ghost<Seq<T>>, pub pos: Ghost<int> }
+#[verifier::external_body]
+pub fn vx_into_iter<T>(v: Vec<T>) -> (r: VxIter<T>) ensures r.v@ == v@, r.pos@ == 0 { unimplemented!() }
+impl<T> VxIter<T> {
+    #[verifier::external_body]
+    pub fn vx_next(&mut self) -> (r: Option<T>)
+        requires 0 <= old(self).pos@ <= old(self).v@.len(),
+        ensures final(self).v == old(self).v,
+            old(self).pos@ < old(self).v@.len() ==> r is Some && r->Some_0 == old(self).v@[old(self).pos@] && final(self).pos@ == old(self).pos@ + 1,
+            old(self).pos@ >= old(self).v@.len() ==> r is None && final(self).pos == old(self).pos,
+    { unimplemented!() }
+}
